@@ -9,6 +9,7 @@ params:
               futures that are due and raises afterwards
   poll_dur  virtual duration of each poll call
   notify    [times]
+  poll_mutates  the poll function empties the list it was given before returning (its argument is its own to use)
   interval  default interval (ticks)
   horizon
 """
@@ -71,6 +72,8 @@ def build(p):
                     exc = H.OtherError("poll%d" % k)
                     E.emit("PollRet", k=k, a=1, b=s.ident(exc, "val"))
                     raise exc
+                if p.get("poll_mutates"):
+                    del descriptors[:]
                 E.emit("PollRet", k=k, a=0)
             except H.OtherError:
                 raise
@@ -93,6 +96,7 @@ def build(p):
             base = ManualExecutor(plan, tag="tap")
         else:
             base = H.TapExecutor(Executors.thread_pool(max_workers=p.get("workers", 2), name="p"), "tap")
+        E.emit("Cfg", s=cmode or "none")
         ex = PollExecutor(base, poll_fn, cancel_fn if cmode else None, default_interval=interval / 1000.0, name="q")
         role_attr(ex, "_shutdown._lock", "gate")
         role_attr(ex, "_lock", "plock")
